@@ -1777,7 +1777,16 @@ func SortServicesByCreationTime(services []*Service) []*Service {
 		if r := strings.Compare(i.Attributes.Name, j.Attributes.Name); r != 0 {
 			return r
 		}
-		return strings.Compare(i.Attributes.Namespace, j.Attributes.Namespace)
+		if r := strings.Compare(i.Attributes.Namespace, j.Attributes.Namespace); r != 0 {
+			return r
+		}
+		// Attributes.Name of a ServiceEntry service is its hostname, so several ServiceEntries of one namespace
+		// naming the same host tie up to here; fall back to the object name (as the ServiceEntry registry does)
+		// and the hostname so that the order never depends on the order the registries listed the services in.
+		if r := strings.Compare(i.Attributes.K8sAttributes.ObjectName, j.Attributes.K8sAttributes.ObjectName); r != 0 {
+			return r
+		}
+		return strings.Compare(string(i.Hostname), string(j.Hostname))
 	})
 	return services
 }
